@@ -132,6 +132,11 @@ def verify_one(task):
     if rc != 0:
         res.update(status="infra", detail="goto-cc: " + out[-1500:], seconds=t1)
         return res
+    rc, out, t1b = _run(["goto-instrument", "--add-library", gb, gb], 120)
+    if rc != 0:
+        res.update(status="infra", detail="goto-instrument --add-library: " + out[-1500:], seconds=t1)
+        return res
+    t1 += t1b
     cmd = ["goto-instrument", "--dfcc", "harness", "--enforce-contract", task["target"]]
     for c in task["replace"]:
         cmd += ["--replace-call-with-contract", c]
@@ -147,6 +152,8 @@ def verify_one(task):
         cb += ["--cvc5", "--external-smt2-solver", CVC5_INT]
     elif task["backend"] == "cadical":
         cb += ["--sat-solver", "cadical"]
+    elif task["backend"] == "z3":
+        cb += ["--z3"]
     rc, out, t3 = _run(cb + [gb2], task.get("timeout", 120))
     res["seconds"] = t1 + t2 + t3
     res["solver_seconds"] = t3
